@@ -7,7 +7,8 @@ A weekday object is the pair `(weekday : Int, n : Option Int)` (`WdPy.Wd`, the t
 `weekday` field).  Methods are translated into functions `Gen.wd* : … → Py.R …` (Generated/WdOps.lean):
 
     __init__(self, weekday, n=None)    the object built: `self.<slot> = <expr>` for exactly the two slots
-    __call__(self, n)                  (value, is_self): `return self` is the SAME object, `self.__class__(a, b)` a new one
+    __call__(self, n)                  (value, is_self): `return self` is the SAME object, `self.__class__(a, b)` a new one built by
+                                       the constructor of the receiver's class (a parameter `ctor`: weekday or rrule.weekday)
     __eq__(self, other)                `other` is a weekday object or an object WITHOUT the attributes (`WdPy.Other`): the
                                        `try: … except AttributeError: return …` becomes a match on `other`
     __ne__, __hash__ (the tuple handed to hash()), __reduce__ (the constructor arguments), __repr__
@@ -52,6 +53,7 @@ class Tr:
         self.other_is_wd = False       # inside the `.wd o` arm of a match on `other`
         self.tmp = 0
         self.slots = {}                # __init__: slot -> lean term
+        self.uses_ctor = False
 
     def fresh(self, p):
         self.tmp += 1
@@ -113,7 +115,10 @@ class Tr:
                 a, ta = self.E(e.args[0], pre); b, tb = self.E(e.args[1], pre)
                 if (ta, tb) != ("Int", "OptInt"): raise Untranslatable("constructor arguments %s, %s" % (ta, tb))
                 t = self.fresh("w")
-                pre.append((t, "wdInit %s %s" % (a, b)))
+                # `self.__class__` is the class of the RECEIVER (weekday itself or a subclass such as rrule.weekday, whose
+                # constructor rejects n == 0): its constructor is a parameter of the translated method
+                self.uses_ctor = True
+                pre.append((t, "ctor %s %s" % (a, b)))
                 return t, "Wd"
             raise Untranslatable("call %s" % ast.unparse(f))
         raise Untranslatable("expression %s" % type(e).__name__)
@@ -247,7 +252,7 @@ def translate_class(src_root, relfile, cls, specs, check_slots):
             raise Untranslatable("%s parameters %s" % (sp.method, pyparams))
         tr = Tr(sp)
         body = tr.B(fn.body)
-        params = ("" if sp.init else "(self : WdPy.Wd) ") + " ".join("(%s : %s)" % (p, LEAN_TY[t]) for p, t in sp.params)
+        params = ("(ctor : Int → Option Int → Py.R WdPy.Wd) " if tr.uses_ctor else "") + ("" if sp.init else "(self : WdPy.Wd) ") + " ".join("(%s : %s)" % (p, LEAN_TY[t]) for p, t in sp.params)
         parts.append("/-- translated from `%s:%s.%s` -/\ndef %s %s: Py.R (%s) :=\n%s\n" % (
             relfile, cls, sp.method, sp.leanname, params + (" " if params.strip() else ""), LEAN_TY[sp.ret], indent(body)))
         fps["%s:%s.%s" % (relfile, cls, sp.method)] = hashlib.sha256(ast.dump(fn).encode()).hexdigest()[:16]
